@@ -205,6 +205,43 @@ def oracle(case, stats):
         merged = list(dict.fromkeys(list(sl) + list(ol)))
         if sorted(getattr(a, "extra_%s_labels" % name)) != sorted(merged):
             raise Violation("extra-labels", "%s: extra %s labels %r, expected the union %r" % (what, name, list(getattr(a, "extra_%s_labels" % name)), merged))
+    if mode != "shared-ids" and len(o["pos"]) >= 1:
+        # afterwards, on the same objects: a third fragment with other extra-column labels is added, then the first fragment
+        # once more.  The first fragment must not change when the structure it was added to grows further, and adding it
+        # again appends its atoms again (full comparison of this longer history is left to C09's state machine)
+        o3 = shifted_copy(shifted_copy(o))
+        o3["extra_atom_labels"] = [l + "_3" for l in o["extra_atom_labels"]] + ["_atom_site_third"]
+        rows = o["extra_atom_fields"] if o["extra_atom_labels"] else [[] for _ in o["pos"]]
+        o3["extra_atom_fields"] = [list(r) + ["q%d" % i] for i, r in enumerate(rows)]
+        for k in M.KINDS:
+            if o["extra_%s_labels" % k]:
+                o3["extra_%s_labels" % k] = [l + "_3" for l in o["extra_%s_labels" % k]]
+        try:
+            c = M.build(o3)
+        except Exception as e:
+            raise Violation("exception-in-construction", "third fragment: %s: %r" % (type(e).__name__, e))
+        snap_b = mf.snapshot(b)
+        n0 = len(a.positions)
+        try:
+            with silenced():
+                a.extend(c)
+        except Exception as e:
+            raise Violation("exception-in-extend", "%s, then a third fragment with other extra columns: %s: %r" % (what, type(e).__name__, e))
+        if mf.snapshot(b) != snap_b:
+            now = mf.snapshot(b)
+            bad = [k for k in snap_b if snap_b[k] != now.get(k)]
+            raise Violation("other-modified-later", "%s: the fragment added first changed (%s) when a third fragment was added to "
+                            "the same structure" % (what, ", ".join(bad)))
+        try:
+            with silenced():
+                a.extend(b)
+        except Exception as e:
+            raise Violation("exception-in-extend", "%s, a third fragment, then the first fragment again: %s: %r" % (what, type(e).__name__, e))
+        if len(a.positions) != n0 + 2 * len(o["pos"]):
+            raise Violation("atom-count", "%s, third fragment, first fragment again: %d atoms, expected %d" % (what, len(a.positions), n0 + 2 * len(o["pos"])))
+        if mf.snapshot(b) != snap_b:
+            raise Violation("other-modified", "%s: adding the first fragment again modified it" % what)
+        stats.count("then-third-fragment-then-first-again")
     stats.count("mode:" + mode)
     stats.count("map-size:%d" % len(mp))
     stats.count("self-atoms:%s" % ("0" if not ms["atoms"] else "1+"))
